@@ -301,6 +301,25 @@ func (e *lfEngine) builtin(fr *lfFrame, st *lfState, x *ssa.Call, name string) l
 	case "copy":
 		n := linSym(e.newSym("copy()"))
 		st.cons = append(st.cons, geq(n, linConst(0)))
+		// record whether a copy into a whole fixed-size array is total (used by C17)
+		if sl, ok := args[0].(*ssa.Slice); ok && sl.Low == nil && sl.High == nil && e.quiet == 0 {
+			if pt, ok := sl.X.Type().Underlying().(*types.Pointer); ok {
+				if at, ok := pt.Elem().Underlying().(*types.Array); ok {
+					if src, ok := e.asSlice(st, e.val(fr, st, args[1]), args[1].Type(), valueName(args[1])); ok {
+						c := e.copyTotal[x]
+						if c == nil {
+							c = &lfCopy{}
+							e.copyTotal[x] = c
+						}
+						if entails(st.cons, geq(src, linConst(at.Len()))) {
+							c.Total++
+						} else {
+							c.Partial++
+						}
+					}
+				}
+			}
+		}
 		if a, ok := e.asSlice(st, e.val(fr, st, args[0]), args[0].Type(), valueName(args[0])); ok {
 			st.cons = append(st.cons, leq(n, a))
 		}
